@@ -241,6 +241,7 @@ func c16ParkedFingerprint(snap vk.LeakSnapshot, scope []string) ([]string, bool)
 			time.Sleep(100 * time.Millisecond)
 		}
 		var cur []string
+		startParked := false
 		for _, g := range vk.Goroutines() {
 			if _, old := snap[g.ID]; old {
 				continue
@@ -251,17 +252,26 @@ func c16ParkedFingerprint(snap vk.LeakSnapshot, scope []string) ([]string, bool)
 					in = true
 				}
 			}
-			// the harness's own waiting goroutines are in the package too: keep product frames only
-			if !in || strings.Contains(g.Top, "c16") || strings.Contains(g.Top, "VerifC16") {
+			if !in {
 				continue
 			}
+			// anything of this trial (harness racers included) still running => not a hang
 			if strings.HasPrefix(g.State, "running") || strings.HasPrefix(g.State, "runnable") {
 				return nil, false
+			}
+			if strings.Contains(g.Stack, "(*Bridge).Start(") {
+				startParked = true
+			}
+			// the harness's own waiting goroutines are in the package too: fingerprint product frames only
+			if strings.Contains(g.Top, "c16") || strings.Contains(g.Top, "VerifC16") {
+				continue
 			}
 			cur = append(cur, g.ID+" "+strings.SplitN(g.State, ",", 2)[0]+" "+g.Top)
 		}
 		sort.Strings(cur)
-		if round > 0 && strings.Join(cur, ";") != strings.Join(prev, ";") {
+		// a Bridge.Start call must be among the parked ones (the periodic reporter of a live
+		// bridge is always parked and proves nothing)
+		if !startParked || (round > 0 && strings.Join(cur, ";") != strings.Join(prev, ";")) {
 			return nil, false
 		}
 		prev = cur
